@@ -138,9 +138,37 @@ func BaseStart(p Party, task string, prepare ...func(Round) *Error) *Error {
 	}
 	common.Logger.Infof("party %s: %s round %d starting", p.round().Params().PartyID(), task, 1)
 	defer func() {
-		common.Logger.Debugf("party %s: %s round %d finished", p.round().Params().PartyID(), task, 1)
+		common.Logger.Debugf("party %s: %s round %d finished", p.PartyID(), task, 1)
 	}()
-	return p.round().Start()
+	if err := p.round().Start(); err != nil {
+		return err
+	}
+	// messages may have been stored before Start() was called; if they already complete the
+	// round nothing else would re-run the round update, so catch up with them here
+	// (only peers send messages: a round that awaits no peer is left alone, as before)
+	awaitsPeer := func() bool {
+		for _, id := range p.round().WaitingFor() {
+			if id.KeyInt().Cmp(p.PartyID().KeyInt()) != 0 {
+				return true
+			}
+		}
+		return false
+	}
+	for p.round() != nil && awaitsPeer() {
+		if _, err := p.round().Update(); err != nil {
+			return err
+		}
+		if !p.round().CanProceed() {
+			break
+		}
+		if p.advance(); p.round() != nil {
+			if err := p.round().Start(); err != nil {
+				return err
+			}
+			common.Logger.Infof("party %s: %s round %d started", p.PartyID(), task, p.round().RoundNumber())
+		}
+	}
+	return nil
 }
 
 // an implementation of Update that is shared across the different types of parties (keygen, signing, dynamic groups)
